@@ -1,5 +1,6 @@
 import Utv.Model.C19
 import Utv.Lemmas.C19
+import Utv.Lemmas.C19Decl
 /-!
 C19 — parsing is pure: no input mutation, no shared defaults, no cross-call state.
 
@@ -47,8 +48,13 @@ def Act.atomic : Act → Prop
 declared default objects themselves); change an object it reaches through a root; assign an atom to a
 field; copy an instance -/
 def Op.Valid (w : World) : Op → Prop
-  | .call _ _ bump input =>
+  | .call _ _ bump input ro =>
       (∀ i ∈ input.mutIds, i < w.next + bump) ∧ (∀ i ∈ input.mutIds, i ∈ w.env.declIds → i ∈ w.env.leak)
+      ∧ ro.opqIds = []          -- a forced default, if any, is an atom or a list/set/tuple/dict nest
+  | .declare d bump =>
+      -- the new declaration's default objects are new objects — or, for the fields a subclass takes over from its
+      -- base, the base's own default objects —, in the property's scope
+      (∀ i ∈ Env.declIds [d], (w.next ≤ i ∧ i < w.next + bump) ∨ i ∈ w.env.declIds) ∧ Env.leak [d] = []
   | .mutate i act => i ∈ w.rootIds ∧ act.atomic
   | .setattr _ _ v => v.mutIds = []
   | .copy _ => True
@@ -58,8 +64,8 @@ def ValidHist : World → List Op → Prop
   | w, op :: ops => op.Valid w ∧ ValidHist (w.step op).1 ops
 
 /-- the parse itself, as a function of the declarations, the allocator position and the input only -/
-def World.callResult (w : World) (target wrapper bump : Nat) (input : Val) : Res × St :=
-  callWith effectiveOpts w.env target wrapper (entriesOf input).1 (entriesOf input).2 { next := w.next + bump }
+def World.callResult (w : World) (target wrapper bump : Nat) (input : Val) (ro : ROpts := {}) : Res × St :=
+  callWith effectiveOpts ro w.env target wrapper (entriesOf input).1 (entriesOf input).2 { next := w.next + bump }
 
 /-! ### copy_value and defaults -/
 
@@ -85,11 +91,13 @@ theorem C19_copy_equal (d : Val) (s : St) :
 
 /-- `get_default`: plain default, shared-object factory, fresh-object factory alike hand out objects
 allocated by this very call (or the declared default's opaque objects). -/
-theorem C19_default_fresh (d : Dflt) (s : St) (v : Val) (h : (getDefault d s).1 = some v) :
-    ∀ i ∈ v.mutIds, (s.next ≤ i ∧ i < (getDefault d s).2.next) ∨ i ∈ d.opqIds := by
+theorem C19_default_fresh (ro : ROpts) (d : Dflt) (s : St) (v : Val) (h : (getDefault ro d s).1 = some v) :
+    ∀ i ∈ v.mutIds, (s.next ≤ i ∧ i < (getDefault ro d s).2.next) ∨ i ∈ d.opqIds ∨ i ∈ ro.opqIds := by
   intro i hi
-  have := (getDefault_fr d s).out i (by rw [h]; exact hi)
-  exact this.symm
+  have := (getDefault_fr ro d s).out i (by rw [h]; exact hi)
+  rcases this with h' | h'
+  · exact Or.inr (List.mem_append.mp h')
+  · exact Or.inl h'
 
 /-! ### one parse -/
 
@@ -125,12 +133,15 @@ theorem entriesOf_ids (input : Val) : ∀ v ∈ (entriesOf input).2, ∀ i ∈ v
 success or failure): the allocator only moves forward; every object written in place was allocated by
 this parse; every mutable object of the result is one the input contained, one allocated by this parse,
 or an opaque object of a declared default. -/
-theorem C19_call_frame (w : World) (target wrapper bump : Nat) (input : Val) :
-    let r := w.callResult target wrapper bump input
+theorem C19_call_frame (w : World) (target wrapper bump : Nat) (input : Val) (ro : ROpts) :
+    let r := w.callResult target wrapper bump input ro
     w.next + bump ≤ r.2.next ∧
     (∀ i ∈ r.2.writes, w.next + bump ≤ i ∧ i < r.2.next) ∧
-    (∀ v, r.1 = .ok v → ∀ i ∈ v.mutIds, i ∈ input.mutIds ∨ i ∈ w.env.leak ∨ (w.next + bump ≤ i ∧ i < r.2.next)) := by
-  have h := callWith_fr effectiveOpts w.env (input.mutIds ++ w.env.leak) (fun i hi => List.mem_append_right _ hi)
+    (∀ v, r.1 = .ok v → ∀ i ∈ v.mutIds,
+        i ∈ input.mutIds ∨ i ∈ w.env.leak ++ ro.opqIds ∨ (w.next + bump ≤ i ∧ i < r.2.next)) := by
+  have h := callWith_fr effectiveOpts ro w.env (input.mutIds ++ (w.env.leak ++ ro.opqIds))
+    (fun i hi => List.mem_append_right _ (List.mem_append_left _ hi))
+    (fun i hi => List.mem_append_right _ (List.mem_append_right _ hi))
     target wrapper (entriesOf input).1 (entriesOf input).2
     (fun v hv i hi => List.mem_append_left _ (entriesOf_ids input v hv i hi)) { next := w.next + bump }
   refine ⟨h.mono, ?_, ?_⟩
@@ -178,13 +189,13 @@ theorem mem_rootIds_push_none {w : World} {i : Nat} :
 
 /-- what `step` does on a parse, in a well-formed world: although every logged in-place write is applied
 to the declarations, to all earlier roots and to the input, nothing of that changes. -/
-theorem step_call (w : World) (hw : WF w) (target wrapper bump : Nat) (input : Val)
+theorem step_call (w : World) (hw : WF w) (target wrapper bump : Nat) (input : Val) (ro : ROpts)
     (hin : ∀ i ∈ input.mutIds, i < w.next + bump) :
-    w.step (.call target wrapper bump input) =
-      (match w.callResult target wrapper bump input with
+    w.step (.call target wrapper bump input ro) =
+      (match w.callResult target wrapper bump input ro with
        | (.ok r, s1) => ({ w with next := s1.next, roots := w.roots ++ [some input] ++ [some r] }, Outcome.ok)
        | (.error e, s1) => ({ w with next := s1.next, roots := w.roots ++ [some input] ++ [none] }, Outcome.ofErr e)) := by
-  have hfr := C19_call_frame w target wrapper bump input
+  have hfr := C19_call_frame w target wrapper bump input ro
   simp only at hfr
   have happ : ∀ ws : List Nat, (∀ i ∈ ws, w.next + bump ≤ i) →
       ({ w with roots := w.roots ++ [some input] } : World).applyWrites ws = { w with roots := w.roots ++ [some input] } := by
@@ -199,10 +210,10 @@ theorem step_call (w : World) (hw : WF w) (target wrapper bump : Nat) (input : V
       · have := hin i h; omega
   unfold World.step World.stepWith
   simp only
-  change (match w.callResult target wrapper bump input with
+  change (match w.callResult target wrapper bump input ro with
     | (.ok r, s1) => _
     | (.error e, s1) => _) = _
-  cases hr : w.callResult target wrapper bump input with
+  cases hr : w.callResult target wrapper bump input ro with
   | mk r s1 =>
     rw [hr] at hfr
     have hws : ∀ i ∈ s1.writes, w.next + bump ≤ i := fun i hi => (hfr.2.1 i hi).1
@@ -213,12 +224,12 @@ theorem step_call (w : World) (hw : WF w) (target wrapper bump : Nat) (input : V
 /-- **Parsing never modifies the caller's input objects** — nor anything else that existed: after a parse
 (successful or failing) the declarations with their default objects are the same, every earlier root is
 the same, and the input root is the input as the caller built it. -/
-theorem C19_input_unmodified (w : World) (hw : WF w) (target wrapper bump : Nat) (input : Val)
+theorem C19_input_unmodified (w : World) (hw : WF w) (target wrapper bump : Nat) (input : Val) (ro : ROpts)
     (hin : ∀ i ∈ input.mutIds, i < w.next + bump) :
-    (w.step (.call target wrapper bump input)).1.env = w.env ∧
-    ∃ r, (w.step (.call target wrapper bump input)).1.roots = w.roots ++ [some input] ++ [r] := by
-  rw [step_call w hw target wrapper bump input hin]
-  cases hr : w.callResult target wrapper bump input with
+    (w.step (.call target wrapper bump input ro)).1.env = w.env ∧
+    ∃ r, (w.step (.call target wrapper bump input ro)).1.roots = w.roots ++ [some input] ++ [r] := by
+  rw [step_call w hw target wrapper bump input ro hin]
+  cases hr : w.callResult target wrapper bump input ro with
   | mk r s1 =>
     cases r with
     | ok v => exact ⟨rfl, ⟨some v, rfl⟩⟩
@@ -226,10 +237,10 @@ theorem C19_input_unmodified (w : World) (hw : WF w) (target wrapper bump : Nat)
 
 /-- **Freshness of a result**, in world terms: a mutable object of the result is one the caller passed in,
 a new one, or (outside the property's scope) an opaque object of a declared default. -/
-theorem C19_result_fresh (w : World) (target wrapper bump : Nat) (input : Val) (r : Val) (s1 : St)
-    (h : w.callResult target wrapper bump input = (.ok r, s1)) :
-    ∀ i ∈ r.mutIds, i ∈ input.mutIds ∨ i ∈ w.env.leak ∨ (w.next + bump ≤ i ∧ i < s1.next) := by
-  have hfr := C19_call_frame w target wrapper bump input
+theorem C19_result_fresh (w : World) (target wrapper bump : Nat) (input : Val) (ro : ROpts) (r : Val) (s1 : St)
+    (h : w.callResult target wrapper bump input ro = (.ok r, s1)) :
+    ∀ i ∈ r.mutIds, i ∈ input.mutIds ∨ i ∈ w.env.leak ++ ro.opqIds ∨ (w.next + bump ≤ i ∧ i < s1.next) := by
+  have hfr := C19_call_frame w target wrapper bump input ro
   simp only at hfr
   rw [h] at hfr
   exact hfr.2.2 r rfl
@@ -239,19 +250,20 @@ lists/sets/tuples/dicts), for a caller that does not itself hand in a declared d
 the result reaches no object of any declared default, and it shares with the earlier roots (earlier
 instances, earlier calls' results) only objects the caller passed in with this input. -/
 theorem C19_defaults_isolated (w : World) (hw : WF w) (hs : InScope w.env) (target wrapper bump : Nat)
-    (input : Val) (hv : Op.Valid w (.call target wrapper bump input)) (r : Val) (s1 : St)
-    (h : w.callResult target wrapper bump input = (.ok r, s1)) :
+    (input : Val) (ro : ROpts) (hv : Op.Valid w (.call target wrapper bump input ro)) (r : Val) (s1 : St)
+    (h : w.callResult target wrapper bump input ro = (.ok r, s1)) :
     (∀ i ∈ r.mutIds, i ∉ w.env.declIds) ∧ (∀ i ∈ r.mutIds, i ∈ w.rootIds → i ∈ input.mutIds) := by
-  have hf := C19_result_fresh w target wrapper bump input r s1 h
+  have hf := C19_result_fresh w target wrapper bump input ro r s1 h
+  have hro : ro.opqIds = [] := hv.2.2
   unfold InScope at hs
   refine ⟨fun i hi hd => ?_, fun i hi hr => ?_⟩
   · rcases hf i hi with h' | h' | h'
-    · have := hv.2 i h' hd; simp [hs] at this
-    · simp [hs] at h'
+    · have := hv.2.1 i h' hd; simp [hs] at this
+    · simp [hs, hro] at h'
     · have := hw.decl_lt i hd; omega
   · rcases hf i hi with h' | h' | h'
     · exact h'
-    · simp [hs] at h'
+    · simp [hs, hro] at h'
     · have := hw.root_lt i hr; omega
 
 /-! ### histories -/
@@ -346,73 +358,111 @@ theorem step_copy (w : World) (r : Nat) :
             | (.error _, _) => ({ w with roots := w.roots ++ [none] }, Outcome.skip))
        | none => ({ w with roots := w.roots ++ [none] }, Outcome.skip)) := rfl
 
-/-- every step of a valid history keeps the world well-formed and the declarations unchanged -/
+theorem opqIdsL_append (xs ys : List Val) : opqIdsL (xs ++ ys) = opqIdsL xs ++ opqIdsL ys := by
+  induction xs with
+  | nil => simp [opqIdsL]
+  | cons x xs ih => simp [opqIdsL, ih, List.append_assoc]
+
+theorem declIds_append (E E' : Env) : Env.declIds (E ++ E') = E.declIds ++ Env.declIds E' := by
+  simp [Env.declIds, Env.dfltVals, List.flatMap_append, mutIdsL_append]
+
+theorem leak_append (E E' : Env) : Env.leak (E ++ E') = E.leak ++ Env.leak E' := by
+  simp [Env.leak, Env.dfltVals, List.flatMap_append, opqIdsL_append]
+
+theorem step_declare (w : World) (d : Decl) (bump : Nat) :
+    w.step (.declare d bump) = ({ w with env := w.env ++ [d], next := w.next + bump }, Outcome.ok) := rfl
+
+/-- every step of a valid history keeps the world well-formed; the declarations made so far stay exactly
+what they were (a `declare` appends one, nothing else touches `env`) -/
 theorem step_WF (w : World) (hw : WF w) (hs : InScope w.env) (op : Op) (hv : op.Valid w) :
-    WF (w.step op).1 ∧ (w.step op).1.env = w.env := by
+    WF (w.step op).1 ∧
+    ((w.step op).1.env = w.env ∨ ∃ d, (w.step op).1.env = w.env ++ [d] ∧ Env.leak [d] = []) := by
   have hleak : w.env.leak = [] := hs
   have hnotdecl : ∀ i ∈ w.rootIds, i ∉ w.env.declIds := fun i hi hd => by
     have := hw.iso i hi hd; simp [hleak] at this
   cases op with
-  | call target wrapper bump input =>
-    obtain ⟨hin, hnd⟩ := hv
-    rw [step_call w hw target wrapper bump input hin]
-    have hfr := C19_call_frame w target wrapper bump input
+  | declare d bump =>
+    obtain ⟨hnew, hl⟩ := hv
+    rw [step_declare]
+    refine ⟨⟨fun i hi => ?_, fun i hi => ?_, fun i hi hd => ?_⟩, Or.inr ⟨d, rfl, hl⟩⟩
+    · simp only [declIds_append, List.mem_append] at hi
+      show i < w.next + bump
+      rcases hi with h | h
+      · have := hw.decl_lt i h; omega
+      · rcases hnew i h with h' | h'
+        · exact h'.2
+        · have := hw.decl_lt i h'; omega
+    · show i < w.next + bump
+      have := hw.root_lt i hi; omega
+    · simp only [declIds_append, List.mem_append] at hd
+      simp only [leak_append, List.mem_append]
+      rcases hd with h | h
+      · exact Or.inl (hw.iso i hi h)
+      · rcases hnew i h with h' | h'
+        · have h1 := hw.root_lt i hi
+          omega
+        · exact Or.inl (hw.iso i hi h')
+  | call target wrapper bump input ro =>
+    obtain ⟨hin, hnd, hro⟩ := hv
+    rw [step_call w hw target wrapper bump input ro hin]
+    have hfr := C19_call_frame w target wrapper bump input ro
     simp only at hfr
-    cases hr : w.callResult target wrapper bump input with
+    cases hr : w.callResult target wrapper bump input ro with
     | mk r s1 =>
       rw [hr] at hfr
       simp only at hfr
       have hw1 : WF { w with next := s1.next, roots := w.roots ++ [some input] } :=
         WF_push w hw s1.next (by have := hfr.1; omega) input (fun i hi => by have := hin i hi; have := hfr.1; omega) hnd
       cases r with
-      | error e => exact ⟨WF_push_none _ hw1 s1.next (Nat.le_refl _), rfl⟩
+      | error e => exact ⟨WF_push_none _ hw1 s1.next (Nat.le_refl _), Or.inl rfl⟩
       | ok v =>
-        refine ⟨WF_push _ hw1 s1.next (Nat.le_refl _) v (fun i hi => ?_) (fun i hi hd => ?_), rfl⟩
+        refine ⟨WF_push _ hw1 s1.next (Nat.le_refl _) v (fun i hi => ?_) (fun i hi hd => ?_), Or.inl rfl⟩
         · rcases hfr.2.2 v rfl i hi with h | h | h
           · have := hin i h; have := hfr.1; omega
-          · simp [hleak] at h
+          · simp [hleak, hro] at h
           · exact h.2
         · rcases hfr.2.2 v rfl i hi with h | h | h
           · exact hnd i h hd
-          · exact h
+          · simp [hleak, hro] at h
           · have := hw.decl_lt i hd; omega
   | mutate i act =>
     obtain ⟨hi, ha⟩ := hv
     have hf : AddsNoIds act.apply := act_addsNoIds act (by cases act <;> exact ha)
     obtain ⟨h1, h2, _⟩ := writeAll_WF w hw i act.apply (hnotdecl i hi) hf
-    exact ⟨h1, h2⟩
+    exact ⟨h1, Or.inl h2⟩
   | setattr r fname v =>
     have hv' : v.mutIds = [] := hv
     rw [step_setattr]
     cases hroot : w.root r with
-    | none => exact ⟨hw, rfl⟩
+    | none => exact ⟨hw, Or.inl rfl⟩
     | some rv =>
       cases rv with
-      | none => exact ⟨hw, rfl⟩
-      | int n => exact ⟨hw, rfl⟩
-      | str x => exact ⟨hw, rfl⟩
+      | none => exact ⟨hw, Or.inl rfl⟩
+      | int n => exact ⟨hw, Or.inl rfl⟩
+      | str x => exact ⟨hw, Or.inl rfl⟩
       | node i k ks xs =>
         cases k with
         | inst c =>
           simp only
           cases hd : w.env[c]? with
-          | none => exact ⟨hw, rfl⟩
+          | none => exact ⟨hw, Or.inl rfl⟩
           | some d =>
             simp only
             have hmem := root_mem w r _ hroot
-            exact foldl_writeAll_WF _ w w hw rfl (fun _ h => h) (fun p hp => by
+            have hfo := foldl_writeAll_WF _ w w hw rfl (fun _ h => h) (fun p hp => by
               obtain ⟨h1, h2⟩ := setattrWrites_ok d fname v hv' _ p hp
               exact ⟨hnotdecl p.1 (rootIds_of_root hmem p.1 h1), h2⟩)
-        | list => exact ⟨hw, rfl⟩
-        | tuple => exact ⟨hw, rfl⟩
-        | set => exact ⟨hw, rfl⟩
-        | fset => exact ⟨hw, rfl⟩
-        | dict => exact ⟨hw, rfl⟩
-        | opq _ => exact ⟨hw, rfl⟩
+            exact ⟨hfo.1, Or.inl hfo.2⟩
+        | list => exact ⟨hw, Or.inl rfl⟩
+        | tuple => exact ⟨hw, Or.inl rfl⟩
+        | set => exact ⟨hw, Or.inl rfl⟩
+        | fset => exact ⟨hw, Or.inl rfl⟩
+        | dict => exact ⟨hw, Or.inl rfl⟩
+        | opq _ => exact ⟨hw, Or.inl rfl⟩
   | copy r =>
     rw [step_copy]
     cases hroot : w.root r with
-    | none => exact ⟨WF_push_none w hw w.next (Nat.le_refl _), rfl⟩
+    | none => exact ⟨WF_push_none w hw w.next (Nat.le_refl _), Or.inl rfl⟩
     | some rv =>
       simp only
       have hfr := schemaCopy_fr rv { next := w.next }
@@ -422,10 +472,10 @@ theorem step_WF (w : World) (hw : WF w) (hs : InScope w.env) (op : Op) (hv : op.
         rw [hc] at hfr
         simp only at hfr
         cases res with
-        | error e => exact ⟨WF_push_none w hw w.next (Nat.le_refl _), rfl⟩
+        | error e => exact ⟨WF_push_none w hw w.next (Nat.le_refl _), Or.inl rfl⟩
         | ok c =>
           simp only
-          refine ⟨WF_push w hw s1.next hfr.mono c (fun i hi => ?_) (fun i hi hd => ?_), trivial⟩
+          refine ⟨WF_push w hw s1.next hfr.mono c (fun i hi => ?_) (fun i hi hd => ?_), Or.inl (by trivial)⟩
           · rcases hfr.out i hi with h | h
             · have := hw.root_lt i (rootIds_of_root hmem i h); have := hfr.mono; simp only at this; omega
             · exact h.2
@@ -434,40 +484,67 @@ theorem step_WF (w : World) (hw : WF w) (hs : InScope w.env) (op : Op) (hv : op.
             · have := hw.decl_lt i hd; simp only at h; omega
 
 /-- **No cross-call state through the declarations.**  Along every valid history — parses that succeed
-or fail, the caller changing objects it reaches through results, assigning attributes, copying
-instances — the declarations, *including every declared default object*, stay exactly what they were,
-and the world stays well-formed.  (Induction on the history; no bound on its length.) -/
+or fail (under any running options), the caller changing objects it reaches through results, assigning
+attributes, copying instances, *declaring further classes, subclasses and variants* — every declaration made
+so far, including every declared default object, stays exactly what it was: the environment only grows at
+its end.  The world stays well-formed and in scope.  (Induction on the history; no bound on its length.) -/
 theorem C19_history_preserves_declaration (ops : List Op) :
     ∀ (w : World), WF w → InScope w.env → ValidHist w ops →
-      (w.run ops).1.env = w.env ∧ WF (w.run ops).1 := by
+      (∃ ds, (w.run ops).1.env = w.env ++ ds) ∧ InScope (w.run ops).1.env ∧ WF (w.run ops).1 := by
   induction ops with
-  | nil => intro w hw _ _; exact ⟨rfl, hw⟩
+  | nil => intro w hw hs _; exact ⟨⟨[], by simp [World.run, World.runWith]⟩, hs, hw⟩
   | cons op ops ih =>
     intro w hw hs hv
     obtain ⟨h1, h2⟩ := step_WF w hw hs op hv.1
-    have := ih (w.step op).1 h1 (by unfold InScope; rw [h2]; exact hs) hv.2
+    have hs1 : InScope (w.step op).1.env := by
+      unfold InScope at hs ⊢
+      rcases h2 with h | ⟨d, h, hl⟩
+      · rw [h]; exact hs
+      · rw [h, leak_append, hs, hl]; rfl
+    have hpre : ∃ ds, (w.step op).1.env = w.env ++ ds := by
+      rcases h2 with h | ⟨d, h, _⟩
+      · exact ⟨[], by simp [h]⟩
+      · exact ⟨[d], h⟩
+    have := ih (w.step op).1 h1 hs1 hv.2
     unfold World.run World.runWith
     cases hst : World.step w op with
     | mk w1 o =>
-      rw [hst] at this h2
+      rw [hst] at this hpre
       simp only
       cases hrun : World.runWith World.step w1 ops with
       | mk w2 os =>
         have e : World.run w1 ops = (w2, os) := hrun
         rw [e] at this
-        simp only at this ⊢
-        exact ⟨by rw [this.1, h2], this.2⟩
+        simp only at this ⊢ hpre
+        obtain ⟨⟨ds2, hd2⟩, hsc, hwf⟩ := this
+        obtain ⟨ds1, hd1⟩ := hpre
+        exact ⟨⟨ds1 ++ ds2, by rw [hd2, hd1, List.append_assoc]⟩, hsc, hwf⟩
+
+/-- **What a declaration accepts is fixed by its own declaration.**  Declaring further classes — a subclass of
+an earlier class with other Options (`case_insensitive`, …), a variant, another function — leaves every parse of
+an earlier declaration exactly what it was: for an environment `E` without dangling forward references
+(`Env.closed`), a target of `E` parses the same in `E` and in `E ++ ds`, for every `ds`. -/
+theorem C19_declaration_independent (w : World) (ds : Env) (hE : w.env.closed = true)
+    (target : Nat) (ht : target < w.env.length) (wrapper bump : Nat) (input : Val) (ro : ROpts) :
+    ({ w with env := w.env ++ ds } : World).callResult target wrapper bump input ro
+      = w.callResult target wrapper bump input ro := by
+  unfold World.callResult
+  exact callWith_append effectiveOpts ro w.env ds hE target ht wrapper _ _ _
 
 /-- **The outcome of a parse depends only on the declaration, the options and the input.**  After any
-valid history, a parse returns exactly what it returns in the initial world with the allocator at the
-same position — same success or failure, same value, same aliasing with its input. -/
+valid history (earlier parses that succeeded or failed under whatever running options, caller mutations,
+attribute assignments, copies, further declarations), a parse of a declaration that existed at the start
+returns exactly what it returns in the initial world with the allocator at the same position — same
+success or failure, same value, same aliasing with its input. -/
 theorem C19_history_independent (ops : List Op) (w : World) (hw : WF w) (hs : InScope w.env)
-    (hv : ValidHist w ops) (target wrapper bump : Nat) (input : Val) :
-    (w.run ops).1.callResult target wrapper bump input
-      = ({ w with next := (w.run ops).1.next } : World).callResult target wrapper bump input := by
-  have h := (C19_history_preserves_declaration ops w hw hs hv).1
+    (hE : w.env.closed = true) (hv : ValidHist w ops)
+    (target : Nat) (ht : target < w.env.length) (wrapper bump : Nat) (input : Val) (ro : ROpts) :
+    (w.run ops).1.callResult target wrapper bump input ro
+      = ({ w with next := (w.run ops).1.next } : World).callResult target wrapper bump input ro := by
+  obtain ⟨ds, hds⟩ := (C19_history_preserves_declaration ops w hw hs hv).1
   unfold World.callResult
-  rw [h]
+  rw [hds]
+  exact callWith_append effectiveOpts ro w.env ds hE target ht wrapper _ _ _
 
 /-! ### the `__parsers__` cache (known finding `parser-cache-options`)
 
@@ -535,8 +612,8 @@ def envW : Env := [{ kind := .func, fields := [{ name := "a", ty := .int, dflt :
 
 /-- … and at the level of outcomes: `f2('12')` fails although `f2` was declared without options. -/
 theorem C19_stale_options_outcome_witness :
-    (callWith effectiveOpts envW 0 1 ["a"] [.str "12"] { next := 0 }).1.isOk = false ∧
-    (callWith declaredOpts envW 0 1 ["a"] [.str "12"] { next := 0 }).1.isOk = true := by decide
+    (callWith effectiveOpts {} envW 0 1 ["a"] [.str "12"] { next := 0 }).1.isOk = false ∧
+    (callWith declaredOpts {} envW 0 1 ["a"] [.str "12"] { next := 0 }).1.isOk = true := by decide
 
 /-- non-vacuity: declarations outside the defect exist -/
 example : KnownDefect.staleParserOptions [none, some { strict := true }] 1 = false ∧
@@ -622,6 +699,7 @@ def env0 : Env := [{ kind := .schema, fields := [{ name := "a", ty := .bare .lis
                                                { name := "n", ty := .int, dflt := .none }] }]
 def w0 : World := { env := env0, next := 2 }
 def in0 : Val := .node 2 .dict ["n"] [.int 1]
+def in0' : Val := .node 9 .dict ["n"] [.int 1]
 /-- `A(n=1)`; `A(n='x')` (fails); mutate the first result's `a[1]` in place; `A(n=3)` -/
 def hist0 : List Op :=
   [.call 0 0 1 in0, .call 0 0 1 (.node 9 .dict ["n"] [.str "x"]), .mutate 4 (.append (.int 9)),
@@ -647,5 +725,18 @@ although the first result's copy (ids 4, 3) was mutated in between; no two resul
 example : (w0.run hist0).1.env.dfltVals.map Val.mutIds = [[0, 1]] ∧
     ((w0.run hist0).1.roots.map (fun r => r.map Val.mutIds)) =
       [some [2], some [5, 6, 4, 3, 4, 3], some [9], none, some [12], some [15, 16, 14, 13, 14, 13]] := by decide +kernel
+
+/-- a history with running options and a later declaration of a case-insensitive subclass:
+`A.__from__({}, Options(ignore_required=True))`; `A(n=1)`; declare `Sub(A)` with `case_insensitive`; `A()` fails
+(required `n` absent) exactly as it would have before anything happened -/
+def sub0 : Decl := { kind := .schema, ci := true, fields := [
+    { name := "a", ty := .bare .list, dflt := .val dfl0, own := false },
+    { name := "n", ty := .int, dflt := .none, own := false }] }
+def hist1 : List Op :=
+  [.call 0 0 1 (.node 2 .dict [] []) { ignoreRequired := true }, .call 0 0 1 in0',
+   .declare sub0 0, .call 0 0 1 (.node 16 .dict [] [])]
+example : env0.closed = true := by decide
+example : (w0.run hist1).2 = [.ok, .ok, .ok, .perr] := by decide
+example : ValidHist w0 hist1 := by decide
 
 end Utv.C19
